@@ -65,6 +65,11 @@ let entries_str (l : (string * string) list) =
 let model_entries (t : tnode option) : (string * string) list =
   List.sort compare (List.map (fun (k, v) -> (hex_of_bytes k, hex_of_bytes v)) (entries t))
 
+(* a branch whose value was deleted may keep a stale MustBeHashed flag; it encodes like the same
+   node without the flag (the model reproduces the stray database entry the flag causes) *)
+let rec norm (TN (pk, sv, mbh, cs)) =
+  TN (pk, sv, (mbh && sv <> None), List.map (function None -> None | Some c -> Some (norm c)) cs)
+
 let root_of (t : tnode option) : byte list =
   match t with None -> empty_root hash_memo | Some n -> hash_memo (encode hash_memo n)
 
@@ -153,7 +158,7 @@ let check inp obs =
         let k = next c in let truth = next c in let dbv = next c in (k, truth, dbv)) in
     (* ---------------- model *)
     let tt = (match t with None -> None | Some w -> Some (erase w)) in
-    (match tt with Some n -> if not (wf_node n) then mbad "tree-not-wf" | None -> ());
+    (match tt with Some n -> if not (wf_node (norm n)) then mbad "tree-not-wf" | None -> ());
     if me <> [] then nontrivial := true;
     (match t with Some w -> wnode_stats w true tags | None -> Hashtbl.replace tags "empty-trie" ());
     if nc > 0 then Hashtbl.replace tags "child-tries" ();
